@@ -20,7 +20,19 @@ def lemmas(tier):
     return ls
 
 
+def composed(tier):
+    """the reader-side lemmas that run on every well-formed tape incl. every NOP-run pattern deletions can leave (adjacent separate
+    runs, runs before an end tag, ...): lookup (T3), marshal (T6) and the serialize round trip (Z1), at the quick sizes"""
+    from . import C10, C11, C12
+    ls = [l for l in C10.lemmas("quick" if tier == "quick" else tier) if l.name.startswith("T6.")]
+    ls += [l for l in C11.z1_lemmas("quick") if not l.name.endswith("strings.T10")]
+    ls += [l for l in C12.lemmas("quick") if l.name.startswith("T3.") and ".cfg1." in l.name]
+    return ls
+
+
 def run(ctx):
     ctx.assume("key filters assume unique keys within the object (property statement); without filter duplicates are allowed")
-    ctx.assume("FindKey/FindPath/Interface/Map/Parse/MarshalJSON/serialize after deletion: by composition with T3/T6/Z1, which run on every well-formed tape incl. NOP runs; refWF(after) is asserted here")
-    run_lemmas(ctx, lemmas(ctx.tier))
+    ctx.assume("after each edit T5 asserts refWF(after) and reads back through the traversal APIs; FindKey/FindPath/Interface/Map/Parse (T3), "
+               "MarshalJSON of Iter/Array/Elements (T6) and the serialize round trip (Z1) are lemmas over every well-formed tape incl. every "
+               "NOP-run pattern (the generator emits arbitrary sequences of runs), run here under this id as well: composition")
+    run_lemmas(ctx, lemmas(ctx.tier) + composed(ctx.tier))
